@@ -1,0 +1,15 @@
+//go:build verif
+
+// Contracts for package goast, read by the verification machinery in /verif (govc).
+// Comment-only: this file adds no declarations and is excluded from ordinary builds.
+
+package goast
+
+// DecoratorResolver is the one object the library allows several goroutines (each with its own
+// decorator) to share. Lock discipline: a guarded field, and any map loaded from it, is read or
+// written only while the named mutex is held; a map published into guarded state is not updated
+// afterwards; maps handed to callers are only read by them.
+
+//@ shared DecoratorResolver
+//@ guarded files by filesM
+//@ guarded RestorerResolver by filesM
